@@ -517,6 +517,16 @@ def tabulated_setting_cifs(quick):
     return docs
 
 
+def parser_module_names():
+    """module and format names of the parser package of the tree under examination"""
+    d = os.path.join(common.REPO, "src", "diffpy", "structure", "parsers")
+    try:
+        mods = sorted(f[:-3] for f in os.listdir(d) if f.startswith("p_") and f.endswith(".py"))
+    except OSError:
+        mods = []
+    return mods + [m[2:] for m in mods]
+
+
 def adversarial_docs(ck, base_docs):
     """payloads in every field position (whitespace token) of every line of a valid document per format"""
     rng = ck.rng
@@ -562,6 +572,16 @@ def adversarial_docs(ck, base_docs):
                     continue
                 except ValueError:
                     pass
+                if len(toks) <= 3:
+                    # a name field (format / space group / species ...): the same context breakers behind the names the code
+                    # itself derives from such a field or keeps in its parser package (`p_<format>` modules, format names)
+                    for nm in ["p_" + tok] + parser_module_names():
+                        for mode, tpl in BREAK[:2]:
+                            tt = list(toks)
+                            tt[ti] = tpl % (nm, PAY[0])
+                            newline = line[:len(line) - len(line.lstrip())] + " ".join(tt)
+                            docs.append({"fmt": fmt, "text": "\n".join(lines[:li] + [newline] + lines[li + 1:]), "pos": [li, ti],
+                                         "payload": tt[ti], "mode": "break-name:" + mode, "write": "xcfg" if fmt == "xcfg" else None})
                 for k, (mode, tpl) in enumerate(BREAK):
                     if quick and (li + ti + k) % 2 and mode not in ("stmt", "asname"):
                         continue
